@@ -60,6 +60,13 @@ Pattern:
 		if star {
 			// Look for match skipping i+1 bytes.
 			for i := 0; i < len(name); i++ {
+				// Only skip whole characters: a chunk must not be matched
+				// against a name that starts in the middle of a multi-byte
+				// character (its remaining bytes would be taken for
+				// characters by '?' and by negated character classes).
+				if i+1 < len(name) && !utf8.RuneStart(name[i+1]) {
+					continue
+				}
 				t, ok, err := matchChunk(chunk, name[i+1:])
 				if ok {
 					// if we're the last chunk, make sure we exhausted the name
